@@ -722,7 +722,11 @@ func (w *world) step(i int, op Op) error {
 				}
 			} else {
 				w.tr.HeldSigner++
-				if _, inMem := w.mem[string(key.Marshal())]; inMem {
+				// which kind of signer was kept: the one for certificates of the underlying agent routes the
+				// request (naming the certificate) through the shim; every other kind - the one for in-memory
+				// hardware certificates - signs with the token's plain key
+				_, inMem := w.mem[string(key.Marshal())]
+				if tn := fmt.Sprintf("%T", hs); inMem || tn != "shimagent.upstreamSigner" {
 					// the kept signer of an in-memory hardware certificate signs with the token's plain key
 					// and names that key, not the certificate: what it does once the certificate has left
 					// its window (or the table) is not part of the statement
